@@ -13,6 +13,10 @@
 (***************************************************************************)
 EXTENDS Expand
 
+\* a set as a sequence in some fixed order (for JSON emission)
+RECURSIVE SetToSeqS(_)
+SetToSeqS(S) == IF S = {} THEN <<>> ELSE LET x == CHOOSE y \in S : TRUE IN <<x>> \o SetToSeqS(S \ {x})
+
 \* parse(source): [ok, node, err, amb, ntoks, panic]
 Parse(s) ==
   IF Len(s) = 0 THEN [ok |-> FALSE, node |-> PFail.node, err |-> MkErr("empty", 0, ""), amb |-> {}, ntoks |-> 0, panic |-> FALSE]
